@@ -2,7 +2,7 @@
 C12 — relay proofs verify against the real store layout, header and signatures.
 Model: Model/Relay.lean.  `H` is the hash (SHA-256 in the driver), a parameter of every theorem.
 -/
-import BandVerif.Lemmas.Relay
+import BandVerif.Lemmas.RelayTree
 import BandVerif.Generated.StoreKeys
 
 namespace C12
@@ -91,12 +91,6 @@ theorem header_recombine (H : Bytes → Bytes) (hd : Header) (hh : hd.height ≠
   simp only [List.take_succ_cons, List.take_zero, List.drop_succ_cons, List.drop_zero, simpleRoot_single] at r1 r2 r3 r4 r5 r6 r7
   rw [r1, r2, r3, r4, r5, r6, r7, simpleRoot_single]
 
-/-- an IAVL inner node as the ICS-23 proof presents it: the node header (height, size, version as zig-zag varints),
-    then 0x20‖left‖0x20‖right with the proven child cut out -/
-def iavlStep (h sz v : Nat) (sib : Bytes) (dataOnRight : Bool) : Step :=
-  if dataOnRight then { pre := varintNonneg h ++ (varintNonneg sz ++ (varintNonneg v ++ ([32] ++ sib ++ [32]))), suf := [] }
-  else { pre := varintNonneg h ++ (varintNonneg sz ++ (varintNonneg v ++ [32])), suf := 32 :: sib }
-
 /-- PROPERTY (IAVL path): GetMerklePaths parses every inner step back into exactly (side, height, size, version,
     sibling), and the bridge's re-hash of those five values equals the ICS-23 hash prefix‖child‖suffix of the step —
     so folding the returned path from the value leaf reproduces the oracle store root the node proved. -/
@@ -157,6 +151,83 @@ theorem iavl_step_sound (H : Bytes → Bytes) (h sz v : Nat) (sib child : Bytes)
       congr 1
       simp [List.append_assoc]
 
+/-- PROPERTY (IAVL, end to end): for EVERY tree whose fields fit their Go types and EVERY walk from its root to a leaf,
+    the existence proof the node serves for that leaf is parsed by GetMerklePaths without failure, and the bridge's fold
+    of the parsed path from the leaf's hash IS the root hash of the tree (induction over the tree; any depth). -/
+theorem iavl_path_sound (H : Bytes → Bytes) (t : ITree) (dirs : List Bool) (lf : ITree) (steps : List Step)
+    (wf : t.WF) (hw : t.walk H dirs = some (lf, steps)) :
+    ∃ ps, getMerklePaths steps = some ps ∧ iavlRoot H (lf.hash H) ps = t.hash H := by
+  induction t generalizing dirs lf steps with
+  | leaf k v ver =>
+    cases dirs with
+    | nil => simp only [ITree.walk, Option.some.injEq, Prod.mk.injEq] at hw; obtain ⟨rfl, rfl⟩ := hw; exact ⟨[], rfl, rfl⟩
+    | cons d ds => simp [ITree.walk] at hw
+  | inner h s v l r ihl ihr =>
+    obtain ⟨hh, hs, hv, wl, wr⟩ := wf
+    cases dirs with
+    | nil => simp [ITree.walk] at hw
+    | cons d ds =>
+      simp only [ITree.walk] at hw
+      cases d with
+      | false =>
+        simp only [Bool.false_eq_true, ↓reduceIte] at hw
+        cases hc : l.walk H ds with
+        | none => simp [hc] at hw
+        | some pr =>
+          obtain ⟨lf', st⟩ := pr
+          simp only [hc, Option.some.injEq, Prod.mk.injEq] at hw
+          obtain ⟨rfl, rfl⟩ := hw
+          obtain ⟨ps, g1, g2⟩ := ihl ds lf' st wl hc
+          obtain ⟨m1, m2⟩ := iavl_step_sound H h s v (r.hash H) (l.hash H) false hh hs hv
+          refine ⟨ps ++ [{ isDataOnRight := false, height := h, size := s, version := v, sibling := r.hash H }],
+            getMerklePaths_append _ _ _ _ g1 (by simp only [getMerklePaths, m1]), ?_⟩
+          rw [iavlRoot_append, g2, m2]
+          simp only [iavlStep, ITree.hash, Bool.false_eq_true, ↓reduceIte]
+          simp [List.append_assoc]
+      | true =>
+        simp only [↓reduceIte] at hw
+        cases hc : r.walk H ds with
+        | none => simp [hc] at hw
+        | some pr =>
+          obtain ⟨lf', st⟩ := pr
+          simp only [hc, Option.some.injEq, Prod.mk.injEq] at hw
+          obtain ⟨rfl, rfl⟩ := hw
+          obtain ⟨ps, g1, g2⟩ := ihr ds lf' st wr hc
+          obtain ⟨m1, m2⟩ := iavl_step_sound H h s v (l.hash H) (r.hash H) true hh hs hv
+          refine ⟨ps ++ [{ isDataOnRight := true, height := h, size := s, version := v, sibling := l.hash H }],
+            getMerklePaths_append _ _ _ _ g1 (by simp only [getMerklePaths, m1]), ?_⟩
+          rw [iavlRoot_append, g2, m2]
+          simp only [iavlStep, ITree.hash, ↓reduceIte]
+          simp [List.append_assoc]
+
+/-- the leaf the bridge hashes for a stored oracle result IS the IAVL leaf of key 0xff‖be64(id) -/
+theorem result_leaf_is_tree_leaf (H : Bytes → Bytes) (version rid : Nat) (value : Bytes) :
+    resultLeafHash H version rid value = (ITree.leaf ([255] ++ be64 rid) value version).hash H := by
+  unfold resultLeafHash ITree.hash
+  have : ([255] ++ be64 rid).length = 9 := by simp [be64]
+  rw [this, uvarint_small 9 (by decide)]
+  simp [List.append_assoc]
+
+/-- PROPERTY (composition): a stored oracle result anywhere in ANY well-formed oracle IAVL tree, in ANY commit of the 27
+    mounted stores whose oracle leaf is that tree, under ANY header carrying that commit's app hash: what the proof
+    service extracts (IAVL path, multistore siblings, header parts), recombined by the bridge's three fixed routines
+    starting from the result's own bytes, is the block hash the validators signed. -/
+theorem result_proof_reaches_block_hash (H : Bytes → Bytes) (t : ITree) (dirs : List Bool) (steps : List Step)
+    (version rid : Nat) (value : Bytes) (wf : t.WF)
+    (hw : t.walk H dirs = some (.leaf ([255] ++ be64 rid) value version, steps))
+    (f : Nat → Bytes) (h17 : f 17 = storeLeaf H [111, 114, 97, 99, 108, 101] (t.hash H))
+    (hd : Header) (hh : hd.height ≠ 0) (hlen : hd.appHash.length = 32)
+    (happ : hd.appHash = simpleRoot H ((List.range 27).map f)) :
+    ∃ ps, getMerklePaths steps = some ps ∧
+      blockHash H (headerParts H hd)
+        (appHash H (getMultiStoreProof (iavlRoot H (resultLeafHash H version rid value) ps)
+          (oraclePath (leafHash H (f 16)) (simpleRoot H [f 18, f 19]) (simpleRoot H [f 20, f 21, f 22, f 23])
+            (simpleRoot H [f 24, f 25, f 26]) (simpleRoot H ((List.range 16).map f))))) = headerHash H hd := by
+  obtain ⟨ps, g1, g2⟩ := iavl_path_sound H t dirs _ steps wf hw
+  refine ⟨ps, g1, ?_⟩
+  rw [result_leaf_is_tree_leaf, g2, multistore_recombine H f (t.hash H) h17, ← happ]
+  exact header_recombine H hd hh hlen
+
 /-- PROPERTY (signatures): for every height, round, block id, vote timestamp and chain id that fit the fixed vote format
     (32-byte hashes, part-set total 1..127, whole vote shorter than 128 bytes), the message the bridge rebuilds from
     the common prefix/suffix, the per-signature encoded timestamp and the chain id IS cometbft's canonical precommit
@@ -212,6 +283,9 @@ example : ([8, 2] ++ (if (3 : Nat) = 0 then [] else 17 :: sfixed64 3) ++ (if (0 
 example : merklePathOf (iavlStep 3 8 2 (List.replicate 32 7) true) =
     some { isDataOnRight := true, height := 3, size := 8, version := 2, sibling := List.replicate 32 7 } :=
   (iavl_step_sound (fun b => b) 3 8 2 (List.replicate 32 7) [] true (by decide) (by decide) (by decide)).1
+example : (ITree.inner 1 2 5 (.leaf [255, 0, 0, 0, 0, 0, 0, 0, 1] [7] 4) (.leaf [255, 0, 0, 0, 0, 0, 0, 0, 2] [8] 5)).WF ∧
+    ((ITree.inner 1 2 5 (.leaf [255, 0, 0, 0, 0, 0, 0, 0, 1] [7] 4) (.leaf [255, 0, 0, 0, 0, 0, 0, 0, 2] [8] 5)).walk (fun b => b) [true]).isSome = true := by
+  refine ⟨⟨by decide, by decide, by decide, by simp [ITree.WF], by simp [ITree.WF]⟩, by decide⟩
 example : splitPoint 27 = 16 ∧ splitPoint 14 = 8 ∧ splitPoint 11 = 8 ∧ splitPoint 3 = 2 := by decide
 
 end C12
